@@ -2,6 +2,7 @@
 #include <occa/internal/core/kernel.hpp>
 #include <occa/internal/core/buffer.hpp>
 #include <occa/internal/core/memory.hpp>
+#include <occa/internal/core/memoryPool.hpp>
 #include <occa/internal/core/stream.hpp>
 #include <occa/internal/core/streamTag.hpp>
 #include <occa/internal/utils/env.hpp>
@@ -34,9 +35,30 @@ namespace occa {
     }
   }
 
+  // A memory pool deletes its own backing buffer, which is registered in
+  // memoryRing as well: free the pools first so no buffer is deleted twice
+  static void freeMemoryPools(gc::ring_t<modeBuffer_t> &memoryRing) {
+    bool foundPool = true;
+    while (foundPool && memoryRing.head) {
+      foundPool = false;
+      modeBuffer_t *start = (modeBuffer_t*) memoryRing.head;
+      modeBuffer_t *buffer = start;
+      do {
+        if (dynamic_cast<modeMemoryPool_t*>(buffer)) {
+          // ~modeMemoryPool_t removes the pool and its buffer from memoryRing
+          delete buffer;
+          foundPool = true;
+          break;
+        }
+        buffer = (modeBuffer_t*) buffer->rightRingEntry;
+      } while (buffer != start);
+    }
+  }
+
   // Must be called before ~modeDevice_t()!
   void modeDevice_t::freeResources() {
     freeRing<modeKernel_t>(kernelRing);
+    freeMemoryPools(memoryRing);
     freeRing<modeBuffer_t>(memoryRing);
     freeRing<modeStream_t>(streamRing);
     freeRing<modeStreamTag_t>(streamTagRing);
